@@ -209,14 +209,55 @@ def dump_mir(repo_dir, target_dir, out_path):
 # ----------------------------------------------------------------------------------------------
 # Rust type declarations (field / variant order) from the current source
 
+class DeclMap:
+    """name -> declaration, disambiguated by module path when two modules declare the same name"""
+
+    def __init__(self):
+        self.by_name = {}
+
+    def add(self, name, modpath, decl):
+        self.by_name.setdefault(name, []).append((modpath, decl))
+
+    def setdefault(self, name, decl):
+        if name not in self.by_name:
+            self.by_name[name] = [("std", decl)]
+
+    def __contains__(self, name):
+        return name in self.by_name
+
+    def lookup(self, name, hint=""):
+        c = self.by_name[name]
+        if len(c) == 1:
+            return c[0][1]
+        hint = hint.strip(":")
+        exact = [d for m, d in c if m == hint]
+        if exact:
+            return exact[0]
+        suffix = [d for m, d in c if hint and (m.endswith("::" + hint) or m.endswith(hint))]
+        if len(suffix) == 1:
+            return suffix[0]
+        # MIR prints the shortest unambiguous path: an un-prefixed or shorter path means the shallower module
+        c2 = sorted(c, key=lambda md: md[0].count("::"))
+        if hint:
+            pref = [d for m, d in c2 if m.split("::")[-1] == hint.split("::")[-1]]
+            if pref:
+                return pref[0]
+        return c2[0][1]
+
+    def __getitem__(self, name):
+        return self.lookup(name)
+
+
 class TypeDecls:
     """struct / enum declarations scraped from the crate source: MIR projections are positional,
     aggregate constructors are by name, so the order has to come from the declaration."""
 
     def __init__(self, src_dir):
-        self.structs, self.enums = {}, {}
-        for path in glob.glob(os.path.join(src_dir, "**", "*.rs"), recursive=True):
-            self._scan(open(path).read())
+        self.structs, self.enums = DeclMap(), DeclMap()
+        for path in sorted(glob.glob(os.path.join(src_dir, "**", "*.rs"), recursive=True)):
+            rel = os.path.relpath(path, src_dir)[:-3]
+            mod = "::".join(x for x in rel.split(os.sep) if x not in ("mod", "lib"))
+            self._scan(open(path).read(), mod)
         self.enums.setdefault("Option", [("None", []), ("Some", ["0"])])
         self.enums.setdefault("Result", [("Ok", ["0"]), ("Err", ["0"])])
         self.enums.setdefault("ControlFlow", [("Continue", ["0"]), ("Break", ["0"])])
@@ -244,7 +285,7 @@ class TypeDecls:
                 i += 1
         return out
 
-    def _scan(self, text):
+    def _scan(self, text, mod):
         text = self._strip(text)
         for m in re.finditer(r"\b(struct|enum)\s+(\w+)\s*(<[^{;(]*>)?\s*(where[^{]*)?\{", text):
             kind, name = m.group(1), m.group(2)
@@ -254,8 +295,8 @@ class TypeDecls:
                 i += 1
             body = text[m.end():i - 1]
             if kind == "struct":
-                self.structs[name] = [re.match(r"(?:pub(?:\([^)]*\))?\s+)?(\w+)\s*:", f.strip()).group(1)
-                                      for f in split_top(body) if re.match(r"(?:pub(?:\([^)]*\))?\s+)?(\w+)\s*:", f.strip())]
+                self.structs.add(name, mod, [re.match(r"(?:pub(?:\([^)]*\))?\s+)?(\w+)\s*:", f.strip()).group(1)
+                                              for f in split_top(body) if re.match(r"(?:pub(?:\([^)]*\))?\s+)?(\w+)\s*:", f.strip())])
             else:
                 variants = []
                 for v in split_top(body):
@@ -270,9 +311,9 @@ class TypeDecls:
                     else:
                         fields = []
                     variants.append((vm.group(1), fields))
-                self.enums[name] = variants
+                self.enums.add(name, mod, variants)
         for m in re.finditer(r"\bstruct\s+(\w+)\s*(<[^{;(]*>)?\s*\(([^;]*)\)\s*;", text):
-            self.structs[m.group(1)] = [str(k) for k in range(len(split_top(m.group(3))))]
+            self.structs.add(m.group(1), mod, [str(k) for k in range(len(split_top(m.group(3))))])
 
 
 def base_type_name(ty):
@@ -327,10 +368,23 @@ class Opaque:
 class Outcome:
     def __init__(self, kind, pc, value=None, msg=None, trace=None):
         self.kind, self.pc, self.value, self.msg, self.trace = kind, list(pc), value, msg, trace or []
+        self.events = []
 
 
 INT_BITS = {"u8": (8, False), "u16": (16, False), "u32": (32, False), "u64": (64, False), "usize": (64, False),
             "i8": (8, True), "i16": (16, True), "i32": (32, True), "i64": (64, True), "isize": (64, True)}
+
+
+def fork_env(env):
+    e = dict(env)
+    if "__events" in e:
+        e["__events"] = list(e["__events"])
+    return e
+
+
+class OpenAgg(Agg):
+    """aggregate whose untracked fields read as opaque values (e.g. `self` of a large struct)"""
+    pass
 
 
 class Interp:
@@ -365,7 +419,9 @@ class Interp:
             t = blk.term
             trace = trace + [bb]
             if t == "return":
-                outs.append(Outcome("return", pc, env.get("_0"), trace=trace))
+                o = Outcome("return", pc, env.get("_0"), trace=trace)
+                o.events = list(env.get("__events", []))
+                outs.append(o)
                 self._count()
                 return
             if t in ("unreachable", "resume"):
@@ -390,7 +446,7 @@ class Interp:
                     cond = self.sem.simplify(cond)
                     if cond == "false":
                         continue
-                    env2 = dict(env)
+                    env2 = fork_env(env)
                     self._exec(fn, dest, env2, pc + ([cond] if cond != "true" else []), outs, trace, depth)
                 return
             m = re.match(r"^assert\((.*?), (\".*\")(?:, .*)?\) -> \[success: (bb\d+), unwind.*\]$", t)
@@ -422,6 +478,7 @@ class Interp:
                     outs.append(Outcome("panic", pc, msg=msg, trace=trace))
                     self._count()
                     return
+                self.cur_env = env
                 results = self._call(fn, callee, args, pc, depth)
                 if ret_bb is None:
                     # diverging call that is not a recognised panic
@@ -437,7 +494,7 @@ class Interp:
                         outs.append(Outcome("panic", pc + extra_pc, msg=msg, trace=trace))
                         self._count()
                         continue
-                    env2 = dict(env)
+                    env2 = fork_env(env)
                     if dest:
                         self._assign(fn, dest, val, env2)
                     self._exec(fn, ret_bb, env2, pc + extra_pc, outs, trace, depth)
@@ -448,6 +505,33 @@ class Interp:
         self.npaths += 1
         if self.npaths > self.max_paths:
             raise Unsupported("path budget exceeded")
+
+    def call_fn(self, target, args, depth=1):
+        """run another MIR body on the given argument values; result in the multi-outcome call format"""
+        outs = []
+        env = {}
+        for (loc, ty), v in zip(target.args, args):
+            env[loc] = v
+        self._exec(target, "bb0", env, [], outs, [], depth)
+        res = []
+        for o in outs:
+            if o.kind == "return":
+                res.append((o.pc, o.value, "return", None))
+            elif o.kind == "panic":
+                res.append((o.pc, None, "panic", o.msg))
+        return res
+
+    def emit(self, what):
+        """record a side effect (e.g. a pushed warning) on the current path"""
+        self.cur_env.setdefault("__events", []).append(what)
+
+    def closure_fn(self, closure_val):
+        """MIR body of a closure value built by a `{closure@file:pos} { captures }` aggregate"""
+        ty = closure_val.ty
+        hits = [f for fl in self.dump.fns.values() for f in fl if f.args and f.args[0][1].replace("&mut ", "").replace("&", "") == ty]
+        if len(hits) != 1:
+            raise Unsupported("closure body for %s: %d candidates" % (ty, len(hits)))
+        return hits[0]
 
     def _call(self, fn, callee, args, pc, depth):
         """returns [(None, value)] for a single deterministic result or [(extra_pc, value, kind, msg)]"""
@@ -461,18 +545,7 @@ class Interp:
             if re.search(pat, callee):
                 if depth > 6:
                     raise Unsupported("inline depth")
-                outs = []
-                env = {}
-                for (loc, ty), v in zip(target.args, args):
-                    env[loc] = v
-                self._exec(target, "bb0", env, [], outs, [], depth + 1)
-                res = []
-                for o in outs:
-                    if o.kind == "return":
-                        res.append((o.pc, o.value, "return", None))
-                    elif o.kind == "panic":
-                        res.append((o.pc, None, "panic", o.msg))
-                return res
+                return self.call_fn(target, args, depth + 1)
         raise Unsupported("%s: call to %s has no model and is not in the inline set" % (fn.name, callee))
 
     # -- statements
@@ -533,8 +606,12 @@ class Interp:
     def _field(self, fn, base, idx):
         if isinstance(base, Agg):
             if idx not in base.fields:
+                if isinstance(base, OpenAgg):
+                    return Opaque("field %s of %s" % (idx, base.ty))
                 raise Unsupported("%s: field %s of %r not tracked" % (fn.name, idx, base))
             return base.fields[idx]
+        if isinstance(base, Opaque):
+            return Opaque("field %s of %s" % (idx, base.what))
         raise Unsupported("%s: field %s of non-aggregate %r" % (fn.name, idx, base))
 
     def _operand(self, fn, o, env):
@@ -547,6 +624,8 @@ class Interp:
             return self._place(fn, o[5:], env)
         if o.startswith("const "):
             return self._const(fn, o[6:].strip())
+        if "::" in o and not o.startswith(("(", "_", "*")):
+            return Opaque("fnitem:" + o)      # function item passed by value
         return self._place(fn, o, env)
 
     def _const(self, fn, c):
@@ -597,8 +676,8 @@ class Interp:
         # `quantity::<impl at ..>::new_approx::promoted[0]` vs `quantity::Number::new_approx::promoted[0]`
         return fname.split("::")[-2] == c.split("::")[-2] and fname.split("::")[0] == c.split("::")[0]
 
-    def _mk_enum(self, ty, var, vals, named=None):
-        variants = self.decls.enums[ty]
+    def _mk_enum(self, ty, var, vals, named=None, hint=""):
+        variants = self.decls.enums.lookup(ty, hint)
         names = [v for v, _ in variants]
         idx = names.index(var)
         fields = dict(variants)[var]
@@ -642,6 +721,17 @@ class Interp:
             if not isinstance(v, Enum):
                 raise Unsupported("%s: discriminant of %r" % (fn.name, v))
             return v.discr
+        # closure aggregate: `{closure@src/x.rs:1:2: 3:4} { a: move _1, b: copy _2 }` (captures are positional)
+        if r.startswith("{closure@"):
+            end = r.index("}")
+            ty = r[:end + 1]
+            rest = r[end + 1:].strip()
+            fields = {}
+            if rest.startswith("{") and rest.endswith("}") and rest[1:-1].strip():
+                for i, f in enumerate(split_top(rest[1:-1])):
+                    k, v = f.split(":", 1)
+                    fields[str(i)] = self._operand(fn, v, env)
+            return Agg(ty, fields)
         # tuple
         if r.startswith("(") and r.endswith(")"):
             items = split_top(r[1:-1])
@@ -655,10 +745,10 @@ class Interp:
                 k, v = f.split(":", 1)
                 named[k.strip()] = self._operand(fn, v, env)
             parts = path.split("::")
-            if len(parts) >= 2 and parts[-2] in self.decls.enums and parts[-1] in [v for v, _ in self.decls.enums[parts[-2]]]:
-                return self._mk_enum(parts[-2], parts[-1], None, named)
+            if len(parts) >= 2 and parts[-2] in self.decls.enums and parts[-1] in [v for v, _ in self.decls.enums.lookup(parts[-2], "::".join(parts[:-2]))]:
+                return self._mk_enum(parts[-2], parts[-1], None, named, hint="::".join(parts[:-2]))
             if parts[-1] in self.decls.structs:
-                order = self.decls.structs[parts[-1]]
+                order = self.decls.structs.lookup(parts[-1], "::".join(parts[:-1]))
                 return Agg(parts[-1], {str(order.index(k)): v for k, v in named.items()})
             raise Unsupported("%s: aggregate %s" % (fn.name, r))
         m = re.match(r"^([\w:<>, &'\[\]]+?)\((.*)\)$", r)
